@@ -10,7 +10,7 @@ PROPS["C02"] = dict(
          "starving sync.Mutex). A quarter of the PutMany batches carry per-record expiry flags and may repeat a key (the last record of a key is its per-key effect). A rediswire unit owns the schedule of the Redis backend at COMMAND granularity: every thread (2-4, programs of <= 4 ops, or shaped races: creators/deleters on one key, read-then-CAS, two single calls against each other) has its own "
          "client whose connection parks every command until the scheduler releases it; exactly one command is in flight at a time and the release order is a drawn, replayable list, so the interleavings of SET NX / GET / WATCH / MULTI..EXEC / DEL / MSET that make up "
          "concurrent Create, CasByVersion, PutMany ... calls are explored directly; in a third of these cases some writes carry an expiry 1 ms ahead, which the un-aged miniredis keeps (a server with a lagging clock): such a record may be found or be gone at any later "
-         "step of the model, every later write without expiry must stick. In a third of the in-memory cases some writes carry an expiry that passed an hour ago (they leave the key absent, like a Delete, in the per-key model). The hammer and private units stop starting new cases after 25 s (5 min) of wall time, so an overloaded machine shortens them instead of stretching the check (skipped cases are counted in the evidence). After a wire-scheduled history the server is aged by two hours: a record left without expiry must still be there with the same version, everything else must be gone. A private unit runs 2..48(64) goroutines on ONE storage object, each on a key of its own "
+         "step of the model, every later write without expiry must stick. In a third of the in-memory cases some writes carry an expiry that passed an hour ago (they leave the key absent, like a Delete, in the per-key model). The private unit also gives every thread 20-200 keys of its own that it writes with one PutMany per round and reads back with one GetMany, and it collects every version a successful write was given: over all keys and threads no version may occur twice ('a version never handed out before'). The hammer and private units stop starting new cases after 25 s (5 min) of wall time, so an overloaded machine shortens them instead of stretching the check (skipped cases are counted in the evidence). After a wire-scheduled history the server is aged by two hours: a record left without expiry must still be there with the same version, everything else must be gone. A private unit runs 2..48(64) goroutines on ONE storage object, each on a key of its own "
          "(Create / Put / CasByVersion with expiry / Delete, each followed by a Get, 20..300(1500) rounds, values of 0..2000 bytes): per key the calls are sequential, so every result must be the sequential one - nothing the callers share behind the scenes may carry one caller's data to another's key. A lostreply unit loses the reply of each wire command of a CasByVersion call in turn (the server applied the command, the connection breaks): the call may report the connection error or succeed, but must not answer ErrConflict/ErrNotExist while its own write is in the storage. The hammer also lets all threads meet the same born-expired records at the same moment (Get / GetMany / ListKeys, in-memory). The squeeze unit also forces a Put to be applied between the expiry of a record and the expiry handling of a waiter parked on it, and between the two halves of a Get/GetMany that meets an expired record (the Put's record must survive). Multi-key calls are split into per-key sub-operations sharing the call/return stamps. non-trivial = the recorded history "
          "has two overlapping operations of different threads on one key of which at least one is a write; distinct = hash of (programs, "
          "call/return stamp pattern observed)",
